@@ -420,6 +420,11 @@ def run(prog, rep, tier):
     check_dict_forward(prog, rep, ['tenpy/networks/mpo.py', 'tenpy/networks/mps.py',
                                    'tenpy/networks/purification_mps.py',
                                    'tenpy/networks/uniform_mps.py'])
+    from ..flow import check_alias_ends
+    rep.rule('ALIAS-ends', 'a value read from one end of a sequence is not used after a store to '
+             'the other end (same entry for a single site)')
+    check_alias_ends(prog, rep, ['tenpy/networks/mpo.py', 'tenpy/networks/mps.py',
+                                 'tenpy/networks/terms.py'])
     return rep.finish(
         level='other',
         explanation='Flag exhaustiveness over %d W-using MPO methods, flag forwarding of derived '
